@@ -7,6 +7,20 @@
 use crate::errors::ParseError;
 use chrono::{NaiveDate, NaiveDateTime, NaiveTime};
 
+/// Reject content outside ASCII before any fixed-offset slicing: SWIFT character sets are ASCII,
+/// and the byte offsets used by the field parsers are character offsets only for ASCII input
+pub fn require_ascii(input: &str, field_name: &str) -> Result<(), ParseError> {
+    if !input.is_ascii() {
+        return Err(ParseError::InvalidFormat {
+            message: format!(
+                "{} contains characters outside the SWIFT character set",
+                field_name
+            ),
+        });
+    }
+    Ok(())
+}
+
 /// Parse a string with exact length requirement
 pub fn parse_exact_length(
     input: &str,
@@ -88,7 +102,7 @@ pub fn parse_uppercase(input: &str, field_name: &str) -> Result<String, ParseErr
 
 /// Parse numeric string (digits only)
 pub fn parse_numeric(input: &str, field_name: &str) -> Result<String, ParseError> {
-    if !input.chars().all(|c| c.is_numeric()) {
+    if !input.chars().all(|c| c.is_ascii_digit()) {
         return Err(ParseError::InvalidFormat {
             message: format!("{} must contain only digits", field_name),
         });
